@@ -273,11 +273,24 @@ def parts(tier):
             for off in (-0.1, -0.3, -(0.1 + 0.2), -0.8, 0.5):
                 yield ("P", p, U[0], U[-1], off, "loose")
 
+        # far-from-zero grid: an offset of 7.8 ms or 0.5 s is below 1e-14 resp. 1e-9 of the time values, but leaving the old span by that
+        # much must still be reported as the reporting mode says
+        B = D.BIG
+        for s in D.interval_sets(B, 2):
+            e = D.labelled(s)
+            for off in (2.0 ** -7, 0.5, 2.0, -(2.0 ** -7), -0.5):
+                yield ("I", e, B[0], B[-1], off, True)
+        for s in D.point_sets(B, 2):
+            p = D.labelled_points(s)
+            for off in (2.0 ** -7, 0.5, 2.0, -(2.0 ** -7), -0.5):
+                yield ("P", p, B[0], B[-1], off, True)
+
     ps.append(InputPart(
         "shift-tiers", gen_shift, _check_shift,
         rule="all interval sets (<=3) and point subsets (<=3) of the 5-point unit grid incl. empty x 3 spans x offsets "
              "%s (bit-exact), and decimal tiers x offsets %s (1e-9); each case runs 3 reporting modes and the +x/-x round "
-             "trip; non-trivial = distinct (type, size, clip class none/some/all, left-old-span, sign)" % (OFFS, DOFFS),
+             "trip; also tiers on the far-from-zero grid 2**40 + {0, 2**-7, ..., 4} x offsets {+-2**-7, +-0.5, 2} (bit-exact); "
+             "non-trivial = distinct (type, size, clip class none/some/all, left-old-span, sign)" % (OFFS, DOFFS),
         bounds={"grid_points": 5, "max_entries": 3}))
 
     asets = D.interval_sets(grid, 2 if quick else 3)
